@@ -155,11 +155,14 @@ func genC04(t *rapid.T) any {
 		}
 	}
 	c.Type = rapid.SampledFrom([]string{"inner", "left", "right"}).Draw(t, "type")
-	equi := rapid.IntRange(0, 1).Draw(t, "equi") == 0
+	mode := rapid.IntRange(0, 4).Draw(t, "equi")
+	equi := mode <= 1
+	// eqor: equalities only, but joined by OR as well as AND (no key tuple decides the partners)
+	eqor := mode == 2
 	atom := func(i int, label string) *sq.E {
 		p := pairs[i]
 		op := "="
-		if !equi {
+		if !equi && !eqor {
 			op = rapid.SampledFrom([]string{"=", "=", "!=", "<", "<=", ">", ">="}).Draw(t, label+".op")
 		}
 		return orient(op, "x."+p.l, "y."+p.r, rapid.Bool().Draw(t, label+".flip"))
@@ -190,6 +193,9 @@ func genC04(t *rapid.T) any {
 			return sq.Or(gen(depth-1, label+"L"), gen(depth-1, label+"R"))
 		}
 		c.On = gen(rapid.IntRange(0, 3).Draw(t, "on.depth"), "on")
+		if eqor {
+			c.On = sq.Or(gen(rapid.IntRange(0, 1).Draw(t, "on.ldepth"), "onl"), gen(rapid.IntRange(0, 2).Draw(t, "on.rdepth"), "onr"))
+		}
 	}
 	// alternative form: swap children of AND/OR and flip operand orientation at random
 	var alt func(e *sq.E, label string) *sq.E
